@@ -236,6 +236,20 @@ func generate(do func(string), r *Rand, tier string) {
 				break
 			}
 			do("unmarshal " + fmtBytes(b))
+			// truncated input to Unmarshal: every prefix of short frames, else around the header
+			// end, the last word and random points
+			if len(b) <= shortCut/2 {
+				for cut := 1; cut < len(b); cut++ {
+					do("unmarshal " + fmtBytes(b[:cut]))
+				}
+			} else {
+				h := hdrLen(len(m))
+				for _, cut := range []int{4, 8, h - 1, h, h + 1, len(b) - 9, len(b) - 8, len(b) - 7, len(b) - 1, r.Intn(len(b)), r.Intn(len(b))} {
+					if cut > 0 && cut < len(b) {
+						do("unmarshal " + fmtBytes(b[:cut]))
+					}
+				}
+			}
 			if r.Intn(4) == 0 { // trailing bytes are ignored by Unmarshal
 				do("unmarshal " + fmtBytes(append(append([]byte{}, b...), genData(r, 1+r.Intn(20))...)))
 			}
